@@ -1,4 +1,5 @@
 #include "modelvalidation.h"
+#include "verifhooks.h"
 #include "memwrapper.h"
 #include "mlr.h"
 #include "pls.h"
@@ -55,6 +56,10 @@ void random_kfold_group_generator(matrix *gid,
         continue;
     }
   }
+  #ifdef LIBSCIENTIFIC_VERIF
+  if(libsci_verif_fold_hook != NULL)
+    libsci_verif_fold_hook((const void*)gid, (unsigned int)(*srand_init));
+  #endif
 }
 
 void kfold_group_train_test_split(matrix *x,
